@@ -26,7 +26,7 @@ BUDGET = {  # number of scenarios per tier
     "quick": {"C12": 220, "C14": 140, "C15": 150, "C17": 240, "C19": 200, "C09": 250},
     "thorough": {"C12": 5000, "C14": 3000, "C15": 3500, "C17": 4000, "C19": 3500, "C09": 4000},
 }
-WALL = {"quick": 150.0, "thorough": 1500.0}
+WALL = {"quick": 150.0, "thorough": 1200.0}
 
 # probes that must have been hit at least once in a thorough run: a probe stuck at zero means the workload or the
 # fault mix no longer reaches the situation the check exists for (exit 2, never 0)
@@ -427,7 +427,7 @@ class Check:
         from cijsim import sweep as SW
         nb = {"quick": 6, "thorough": 30}[self.tier]
         cap = {"quick": 36, "thorough": 400}[self.tier]
-        wall = {"quick": 60.0, "thorough": 700.0}[self.tier]
+        wall = {"quick": 60.0, "thorough": 600.0}[self.tier]
         deadline = time.monotonic() + wall
         seeds = [derive_seed(self.base_seed, 100000 + j) for j in range(nb)]
         bases = {s: SW.base_scenario(self.prop, s, self.tier) for s in seeds}
@@ -489,7 +489,7 @@ class Check:
         from cijsim import sweep as SW
         nb = {"quick": 3, "thorough": 12}[self.tier]
         cap = {"quick": 24, "thorough": 300}[self.tier]
-        wall = {"quick": 45.0, "thorough": 500.0}[self.tier]
+        wall = {"quick": 45.0, "thorough": 400.0}[self.tier]
         deadline = time.monotonic() + wall
         seeds = [derive_seed(self.base_seed, 200000 + j) for j in range(nb)]
         bases = {}
